@@ -1331,7 +1331,12 @@ def mckenzie_formula(P, rep, rule="EXPR.mckenzie"):
             if "adiabatic_heating" in txt:
                 return adiabatic
             if cv.has(EPS):
-                return False          # generic point: not on the slab surface / not at the trench
+                # generic point (not on the slab surface, not at the trench): decide the rounding guard at generic values
+                try:
+                    pt_ = {x_: (sp.Rational(1, 10 ** 16) if x_ == EPS else sp.Rational(12345, 10)) for x_ in cv.free_symbols}
+                    return bool(_at(cv, pt_))
+                except Exception:
+                    return None
             return None
         V = VecEval(P, F, env={}, choose=choose)
         i_s = sp.Symbol("n_", integer=True, positive=True)
@@ -1344,8 +1349,7 @@ def mckenzie_formula(P, rep, rule="EXPR.mckenzie"):
             stmts = astq.stmts_of(blk)
             k_loop = [q for q, st in enumerate(stmts) if st is loop][0]
             for st in stmts[:k_loop]:
-                if st.get("k") == "DeclStmt":
-                    V.stmt(st)
+                V.stmt(st)
             sum_keys = [v["r"] for st in stmts[:k_loop] if st.get("k") == "DeclStmt" for v in st["c"] if v.get("k") == "VarDecl" and V.env.get(v["r"]) == 0]
             if len(sum_keys) != 1:
                 rep.unknown(rule, "the accumulator of the series (a local starting at 0) was not identified")
@@ -1359,7 +1363,7 @@ def mckenzie_formula(P, rep, rule="EXPR.mckenzie"):
             last = V.ev(sc(loop["c"][1])["c"][1])
             V.env[sk] = sp.Symbol("SUM", real=True)
             for st in stmts[k_loop + 1:]:
-                if st.get("k") == "DeclStmt":
+                if st.get("k") in ("DeclStmt", "IfStmt", "BinaryOperator", "CompoundAssignOperator") and not any(z.get("k") == "ReturnStmt" for z in F.walk(st)):
                     V.stmt(st)
             rets = [r_ for st in stmts[k_loop + 1:] for r_ in F.walk(st) if r_.get("k") == "ReturnStmt" and r_.get("c") and is_apply_operation(P, sc(r_["c"][0]))]
             if len(rets) != 1:
@@ -1495,4 +1499,4 @@ def polynomial_tables(P, rep, rule="EXPR.poly"):
                               witness="a tian2019 water content model at 3 GPa")
             else:
                 rep.ok(rule, "%s: sum over %s" % (F.qn.replace("WorldBuilder::Features::", ""), table), F.nloc(L), F.qn)
-    rep.floor(rule, n, 8, "polynomial sums in the tian2019 models")
+    rep.floor(rule, n, 6, "polynomial sums in the tian2019 models")
